@@ -133,8 +133,8 @@ let paths_line l =
   | _ -> print_endline "?"
 
 
-(* minigo case := NB <nbits> P <nglobals> {0|1}* <nfuncs> { F <nparams> stmt }*   (grammar in checks/minigo.py)
-   prints: wf an gsafe | decl triggers | per-function triggers | panic site per oracle vector *)
+(* minigo case := NB <nbits> P <nglobals> {0|1}* <nfuncs> { F <nparams> <pkg> <ctr> stmt }*   (grammar in checks/minigo.py)
+   prints: wf an gsafe clocal | decl triggers | per-function triggers | per-caller duplicated triggers | panic site per oracle vector *)
 let minigo_line l =
   let toks = Array.of_list (List.filter (fun s -> s <> "") (String.split_on_char ' ' l)) in
   let pos = ref 0 in
@@ -154,9 +154,10 @@ let minigo_line l =
     | "k" -> SSkip
     | "q" -> let a = stmt () in let b = stmt () in SSeq (a, b)
     | "a" -> let k = next () in let x = var_of k in let a = atom () in SAssign (x, a)
-    | "c" -> let k = next () in let x = if k = "-" then None else Some (var_of k) in
+    | "c" -> let cs = nexti () in
+             let k = next () in let x = if k = "-" then None else Some (var_of k) in
              let f = nexti () in let n = nexti () in
-             let args = List.init n (fun _ -> atom ()) in SCall (x, nat_of_int f, args)
+             let args = List.init n (fun _ -> atom ()) in SCall (nat_of_int cs, x, nat_of_int f, args)
     | "d" -> let d = nexti () in let k = next () in SDeref (nat_of_int d, var_of k)
     | "i" -> let c = cond () in let a = stmt () in let b = stmt () in SIf (c, a, b)
     | "w" -> let c = cond () in let b = stmt () in SWhile (c, b)
@@ -166,20 +167,29 @@ let minigo_line l =
   let _ = next () in let ng = nexti () in
   let ginit = List.init ng (fun _ -> nexti () = 1) in
   let nf = nexti () in
-  let funcs = List.init nf (fun _ -> let _ = next () in let np = nexti () in let b = stmt () in
+  let meta = ref [] in
+  let funcs = List.init nf (fun _ -> let _ = next () in let np = nexti () in let pk = nexti () in let ct = nexti () in
+    let b = stmt () in
+    meta := !meta @ [(pk, ct = 1)];
     { f_nparams = nat_of_int np; f_body = b }) in
+  let metaa = Array.of_list !meta in
+  let ctr f = let i = int_of_nat f in i < Array.length metaa && snd metaa.(i) in
+  let pk f = let i = int_of_nat f in if i < Array.length metaa then nat_of_int (fst metaa.(i)) else O in
   let prog = { p_funcs = funcs; p_ginit = ginit } in
-  let kind = function KAlways -> "0,0" | KNever -> "1,0" | KCond s -> Printf.sprintf "2,%d" (int_of_nat s) in
-  let trig t = Printf.sprintf "%d,%s,%s" (int_of_nat t.t_id) (kind t.t_prod) (kind t.t_cons) in
+  let prod = function PNil -> "0,0" | PNever -> "1,0" | PStale -> "1,1" | PSite s -> Printf.sprintf "2,%d" (int_of_nat (enc s)) in
+  let cons = function CAlways -> "0,0" | CSite s -> Printf.sprintf "2,%d" (int_of_nat (enc s)) in
+  let trig t = Printf.sprintf "%d,%s,%s,%d" (int_of_nat t.s_id) (prod t.s_prod) (cons t.s_cons)
+      (match t.s_ctrl with None -> -1 | Some s -> int_of_nat (enc s)) in
   let trigs ts = String.concat ";" (List.map trig ts) in
-  let wf = wf_program prog in
+  let wf = wf_program prog && ctr_arity ctr O funcs in
   let afuel = nat_of_int 64 in
-  let an = analyze_program afuel prog in
+  let an = analyze_program afuel ctr pk prog in
   let head = match an with
-    | None -> Printf.sprintf "wf=%d an=0 gsafe=0 | |" (if wf then 1 else 0)
-    | Some ((decl, tss), g) ->
-        Printf.sprintf "wf=%d an=1 gsafe=%d | %s | %s" (if wf then 1 else 0) (if g then 1 else 0) (trigs decl)
-          (String.concat " / " (List.map trigs tss)) in
+    | None -> Printf.sprintf "wf=%d an=0 gsafe=0 clocal=0 | | |" (if wf then 1 else 0)
+    | Some r ->
+        Printf.sprintf "wf=%d an=1 gsafe=%d clocal=%d | %s | %s | %s" (if wf then 1 else 0) (if r.r_gsafe then 1 else 0)
+          (if r.r_clocal then 1 else 0) (trigs r.r_decl)
+          (String.concat " / " (List.map trigs r.r_funcs)) (String.concat " / " (List.map trigs r.r_dups)) in
   let xfuel = nat_of_int 20000 in
   let runs = List.init (1 lsl nb) (fun i ->
     let oracle = List.init nb (fun j -> (i lsr j) land 1 = 1) in
